@@ -114,13 +114,24 @@ pub fn cmd_ser(args: &[String]) -> i32 {
                             };
                             // the handshake-level Serialize impl must agree with the message-level one
                             let direct = if let TlsMessage::Handshake(h) = &m { h.serialize().map(|x| json!(x)).unwrap_or(json!("error")) } else { json!(b) };
+                            // the public per-message serializers are entry points of their own: same bytes as through the dispatcher
+                            let per_fn = match &m {
+                                TlsMessage::Handshake(TlsMessageHandshake::HelloRequest) => cookie_factory::gen_simple(gen_tls_hellorequest(), Vec::new()).map(|x| json!(x)).unwrap_or(json!("error")),
+                                TlsMessage::Handshake(TlsMessageHandshake::ClientHello(c)) => cookie_factory::gen_simple(gen_tls_clienthello(c), Vec::new()).map(|x| json!(x)).unwrap_or(json!("error")),
+                                TlsMessage::Handshake(TlsMessageHandshake::ServerHello(c)) => cookie_factory::gen_simple(gen_tls_serverhello(c), Vec::new()).map(|x| json!(x)).unwrap_or(json!("error")),
+                                TlsMessage::Handshake(TlsMessageHandshake::ServerHelloV13Draft18(c)) => cookie_factory::gen_simple(gen_tls_serverhellodraft18(c), Vec::new()).map(|x| json!(x)).unwrap_or(json!("error")),
+                                TlsMessage::Handshake(TlsMessageHandshake::ClientKeyExchange(c)) => cookie_factory::gen_simple(gen_tls_clientkeyexchange(c), Vec::new()).map(|x| json!(x)).unwrap_or(json!("error")),
+                                TlsMessage::Handshake(TlsMessageHandshake::Finished(c)) => cookie_factory::gen_simple(gen_tls_finished(c), Vec::new()).map(|x| json!(x)).unwrap_or(json!("error")),
+                                TlsMessage::ChangeCipherSpec => cookie_factory::gen_simple(gen_tls_changecipherspec(), Vec::new()).map(|x| json!(x)).unwrap_or(json!("error")),
+                                _ => json!(b),
+                            };
                             // the gen_* functions write into any io::Write: an exactly sized slice takes the same bytes, a shorter one fails
                             let mut exact = vec![0u8; b.len()];
                             let exact_ok = match cookie_factory::gen(gen_tls_message(&m), &mut exact[..]) { Ok((_, n)) => n as usize == b.len() && exact == b, Err(_) => false };
                             let short_err = if b.is_empty() { json!("BufferTooSmall") } else {
                                 let mut short = vec![0u8; b.len() - 1];
                                 match cookie_factory::gen(gen_tls_message(&m), &mut short[..]) { Ok(_) => json!("ok"), Err(e) => json!(generr(e).split('(').next().unwrap_or("")) } };
-                            json!({"ok": true, "bytes": b, "parsed": parsed, "consumed": consumed, "bytes2": b2, "direct": direct, "exact_ok": exact_ok, "short_err": short_err})
+                            json!({"ok": true, "bytes": b, "parsed": parsed, "consumed": consumed, "bytes2": b2, "direct": direct, "per_fn": per_fn, "exact_ok": exact_ok, "short_err": short_err})
                         }
                     }
                 }
